@@ -35,6 +35,9 @@ def problem(rng, Nmax=None, fam=None, cplx=None):
     return fam, sym, ops, N, H, n, cplx
 
 
+CASE_LIMIT = 90     # seconds per tdvp_ run (SIGALRM); the runs of the generated cases take 0.05 - 3 s on the unchanged tree
+
+
 def trace_cases(ctx, st, n_cases, jobs, src, seeds=None):
     import random, dgen, mgen, sweeptrace, yastn.tn.mps as mps, yastn
     for rep in range(n_cases):
@@ -55,9 +58,14 @@ def trace_cases(ctx, st, n_cases, jobs, src, seeds=None):
             print('case', json.dumps(desc), flush=True)
         with sweeptrace.traced(psi) as tr:
             try:
-                for _ in mps.tdvp_(psi, Hs, times=(0, 0.05 * nsteps), dt=0.05, u=1j, method=method, opts_svd={'D_total': rng.choice([4, 16]), 'tol': rng.choice([1e-12, 1e-6])}, precompute=pre,
-                                   opts_expmv={'hermitian': True, 'tol': 1e-12}):
-                    pass
+                with vlib.time_limit(CASE_LIMIT):
+                    for _ in mps.tdvp_(psi, Hs, times=(0, 0.05 * nsteps), dt=0.05, u=1j, method=method, opts_svd={'D_total': rng.choice([4, 16]), 'tol': rng.choice([1e-12, 1e-6])}, precompute=pre,
+                                       opts_expmv={'hermitian': True, 'tol': 1e-12}):
+                        pass
+            except vlib.TimeLimit:
+                ctx.violation('tdvp_(%s, precompute=%s) did not finish %d step(s) within %d s (%s %s N=%d; such a run takes well under a second on the unchanged tree)' % (
+                    method, pre, nsteps, CASE_LIMIT, fam, sym, N), desc)
+                continue
             except (KeyError, yastn.YastnError, ValueError, IndexError) as e:
                 ctx.violation('tdvp_(%s, precompute=%s) raised %s: %s (%s %s N=%d)' % (method, pre, type(e).__name__, str(e)[:100], fam, sym, N), desc)
                 continue
@@ -213,7 +221,12 @@ def numeric_cases(ctx, n_cases, seeds=None, focus=None):
                 last = out
             return p, last
         try:
-            p1, out = run(dt)
+            with vlib.time_limit(CASE_LIMIT):
+                p1, out = run(dt)
+        except vlib.TimeLimit:
+            ctx.violation('tdvp_ did not finish within %d s (%s %s N=%d %s %s u=%s precompute=%s subtract_E=%s; such a run takes about a second on the unchanged tree)' % (
+                CASE_LIMIT, fam, sym, N, method, order, u, pre, opts.get('subtract_E')), desc)
+            continue
         except (KeyError, yastn.YastnError, ValueError, IndexError, ZeroDivisionError, OverflowError) as e:
             ctx.violation('tdvp_ raised %s: %s (%s %s N=%d %s %s u=%s precompute=%s)' % (type(e).__name__, str(e)[:100], fam, sym, N, method, order, u, pre), desc)
             continue
@@ -269,7 +282,11 @@ def numeric_cases(ctx, n_cases, seeds=None, focus=None):
             continue
         if err > 1e-7 and ds * rate <= 0.3:
             try:
-                p2, _ = run(ds / 2)
+                with vlib.time_limit(2 * CASE_LIMIT):
+                    p2, _ = run(ds / 2)
+            except vlib.TimeLimit:
+                ctx.violation('tdvp_ did not finish within %d s on the refined grid' % (2 * CASE_LIMIT), desc)
+                continue
             except Exception as e:
                 ctx.violation('tdvp_ raised %s on the refined grid' % type(e).__name__, desc)
                 continue
